@@ -51,6 +51,7 @@ class Annotator::AnnotatorImpl: public Logger::LoggerImpl
 public:
     Annotator *mAnnotator = nullptr;
     ItemList mIdList;
+    IdList mMathIds; /**< Identifiers inside MathML strings: not items, but automatic identifiers must avoid them. */
     ModelWeakPtr mModel;
     size_t mCounter = 0xb4da55;
     size_t mHash = 0;
@@ -508,9 +509,11 @@ AnyCellmlElementPtr Annotator::AnnotatorImpl::convertToShared(const AnyCellmlEle
 void Annotator::AnnotatorImpl::buildIdList()
 {
     mIdList.clear();
+    mMathIds.clear();
     auto model = mModel.lock();
     if (model != nullptr) {
         mIdList = listIdsAndItems(model);
+        mMathIds = listMathIds(model);
     }
 }
 
@@ -1151,7 +1154,7 @@ std::string Annotator::AnnotatorImpl::makeUniqueId()
     std::string id = stream.str();
     stream.str(std::string());
 
-    while (mIdList.count(id) != 0) {
+    while ((mIdList.count(id) != 0) || (mMathIds.count(id) != 0)) {
         ++mCounter;
         stream << std::hex << mCounter;
         id = stream.str();
